@@ -330,8 +330,16 @@ Definition eb_partial_content (s : schema1) (b : ebody) : xcontent * ebody :=
         (eb_hblocks b ++ s_blocks s)).
 
 Definition eb_just_attributes (b : ebody) : list (list Z * xexpr) * bool :=
-  let '(attrs, err) := native_just (eb_orig b) in
-  (map (fun a => (fst a, XRaw (snd a))) attrs, err).
+  (* original.PartialContent(hidden) first: block types consumed by an earlier
+     PartialContent are not part of the remaining body; the native JustAttributes then
+     reports any other block ("dynamic" blocks included) *)
+  let attrs := flat_map (fun d => match d with DAttr n e => [(n, e)] | _ => [] end) (eb_orig b) in
+  let err := existsb (fun d => match raw_header d with
+                               | Some (t, _) => negb (existsb (fun h => str_eqb t (fst h)) (eb_hblocks b))
+                               | None => false
+                               end) (eb_orig b) in
+  (* hidden attributes are filtered (again) and the expressions wrapped by prepareAttributes *)
+  (prepare_attributes b attrs, err).
 
 (* ---- unknown_body.go ------------------------------------------------------------------------------ *)
 Definition fixup_attrs (m : marks) (attrs : list (list Z * xexpr)) : list (list Z * xexpr) :=
